@@ -61,6 +61,128 @@ theorem f32_roundtrip_normal (b : Nat) (hb : b < 4294967296)
       · split <;> omega
       · omega
 
+/-! ### subnormals, zeros, infinities -/
+
+theorem log2Fuel_spec : ∀ (fuel n : Nat), 0 < n → n < 2 ^ fuel →
+    2 ^ (log2Fuel fuel n) ≤ n ∧ n < 2 ^ (log2Fuel fuel n + 1)
+  | 0, n, h0, h => by simp at h; omega
+  | fuel + 1, n, h0, h => by
+    simp only [log2Fuel]
+    split
+    · simp; omega
+    · have h1 : 0 < n / 2 := by omega
+      have h2 : n / 2 < 2 ^ fuel := by
+        have : 2 ^ (fuel + 1) = 2 * 2 ^ fuel := by rw [Nat.pow_succ]; omega
+        omega
+      have ih := log2Fuel_spec fuel (n / 2) h1 h2
+      have e1 : 2 ^ (log2Fuel fuel (n / 2) + 1) = 2 * 2 ^ (log2Fuel fuel (n / 2)) := by
+        rw [Nat.pow_succ]; omega
+      have e2 : 2 ^ (log2Fuel fuel (n / 2) + 1 + 1) = 2 * 2 ^ (log2Fuel fuel (n / 2) + 1) := by
+        rw [Nat.pow_succ]; omega
+      omega
+
+theorem rne_exact (m P : Nat) (sh : Nat) (hP : P = 2 ^ sh) (hsh : 2 ≤ P) : rne (m * P) sh = m := by
+  have hpos : 0 < P := by omega
+  have hsh0 : sh ≠ 0 := by
+    intro h; subst h; simp at hP; omega
+  have q : m * P / P = m := Nat.mul_div_cancel m hpos
+  have r : m * P % P = 0 := Nat.mul_mod_left m P
+  simp only [rne, ← hP, q, r, hsh0, if_false]
+  have : ¬ (0 > P / 2 ∨ (0 = P / 2 ∧ m % 2 = 1)) := by omega
+  rw [if_neg this]
+
+set_option maxRecDepth 8000 in
+theorem f32_roundtrip_subnormal (b : Nat) (hb : b < 4294967296)
+    (he : b / 8388608 % 256 = 0) (hm : b % 8388608 ≠ 0) : f64to32 (f32to64 b) = b := by
+  generalize hs : b / 2147483648 % 2 = s
+  generalize hmm : b % 8388608 = m at *
+  have hs2 : s < 2 := by omega
+  have hm2 : m < 8388608 := by omega
+  have hbb : b = s * 2147483648 + m := by omega
+  have hspec := log2Fuel_spec 32 m (by omega) (by omega)
+  generalize hk : log2Fuel 32 m = k at *
+  have hk22 : k ≤ 22 := by
+    by_cases h : k ≤ 22
+    · exact h
+    · have : 2 ^ 23 ≤ 2 ^ k := Nat.pow_le_pow_right (by omega) (by omega)
+      simp at this; omega
+  generalize hP : 2 ^ (52 - k) = P at *
+  have hkP : 2 ^ k * P = 4503599627370496 := by
+    rw [← hP, ← Nat.pow_add]
+    have : k + (52 - k) = 52 := by omega
+    rw [this]
+  have hP30 : 1073741824 ≤ P := by
+    rw [← hP]
+    have : 2 ^ 30 ≤ 2 ^ (52 - k) := Nat.pow_le_pow_right (by omega) (by omega)
+    simpa using this
+  have hPpos : 0 < P := by omega
+  have hx1 : 4503599627370496 ≤ m * P := by
+    rw [← hkP]; exact Nat.mul_le_mul_right P hspec.1
+  have hx2 : m * P < 9007199254740992 := by
+    have e : 2 ^ (k + 1) * P = 9007199254740992 := by
+      rw [Nat.pow_succ, Nat.mul_right_comm, hkP]
+    rw [← e]; exact Nat.mul_lt_mul_of_pos_right hspec.2 hPpos
+  have e1 : f32to64 b = s * 9223372036854775808 + (k + 874) * 4503599627370496 + (m * P - 4503599627370496) := by
+    simp only [f32to64, hs, he, hmm, hk, hP]
+    simp [hm]
+  rw [e1]
+  generalize hx : m * P = x at *
+  simp only [f64to32]
+  have x1 : (s * 9223372036854775808 + (k + 874) * 4503599627370496 + (x - 4503599627370496)) / 9223372036854775808 % 2 = s := by omega
+  have x2 : (s * 9223372036854775808 + (k + 874) * 4503599627370496 + (x - 4503599627370496)) / 4503599627370496 % 2048 = k + 874 := by omega
+  have x3 : (s * 9223372036854775808 + (k + 874) * 4503599627370496 + (x - 4503599627370496)) % 4503599627370496 = x - 4503599627370496 := by omega
+  rw [x1, x2, x3]
+  have hsig : x - 4503599627370496 + 4503599627370496 = x := by omega
+  have hsh : 29 + (897 - (k + 874)) = 52 - k := by omega
+  rw [hsig, hsh]
+  have hr : rne x (52 - k) = m := by
+    rw [← hx]; exact rne_exact m P (52 - k) hP.symm (by omega)
+  rw [hr]
+  have c1 : ¬ (k + 874 = 2047) := by omega
+  have c2 : ¬ (k + 874 = 0) := by omega
+  have c3 : ¬ (k + 874 ≥ 897) := by omega
+  have c4 : ¬ (52 - k > 60) := by omega
+  simp only [c1, c2, c3, c4, if_false]
+  omega
+
+set_option maxRecDepth 8000 in
+theorem f32_roundtrip_special (b : Nat) (hb : b < 4294967296)
+    (h : (b / 8388608 % 256 = 255 ∧ b % 8388608 = 0) ∨
+         (b / 8388608 % 256 = 0 ∧ b % 8388608 = 0)) : f64to32 (f32to64 b) = b := by
+  generalize hs : b / 2147483648 % 2 = s
+  generalize hee : b / 8388608 % 256 = e at *
+  generalize hmm : b % 8388608 = m at *
+  have hs2 : s < 2 := by omega
+  have hbb : b = s * 2147483648 + e * 8388608 + m := by omega
+  rcases h with ⟨he, hm⟩ | ⟨he, hm⟩
+  · subst he; subst hm
+    have e1 : f32to64 b = s * 9223372036854775808 + 9218868437227405312 := by
+      simp [f32to64, hs, hee, hmm]
+    rw [e1]; simp only [f64to32]
+    have x1 : (s * 9223372036854775808 + 9218868437227405312) / 9223372036854775808 % 2 = s := by omega
+    have x2 : (s * 9223372036854775808 + 9218868437227405312) / 4503599627370496 % 2048 = 2047 := by omega
+    have x3 : (s * 9223372036854775808 + 9218868437227405312) % 4503599627370496 = 0 := by omega
+    rw [x1, x2, x3]; simp; omega
+  · subst he; subst hm
+    have e1 : f32to64 b = s * 9223372036854775808 := by
+      simp [f32to64, hs, hee, hmm]
+    rw [e1]; simp only [f64to32]
+    have x1 : (s * 9223372036854775808) / 9223372036854775808 % 2 = s := by omega
+    have x2 : (s * 9223372036854775808) / 4503599627370496 % 2048 = 0 := by omega
+    rw [x1, x2]; simp; omega
+
+/-- every f32 that is not a NaN survives `as f64` / `as f32` bit for bit -/
+theorem f32_roundtrip_nonnan (b : Nat) (hb : b < 4294967296) (hn : isNaN32 b = false) :
+    f64to32 (f32to64 b) = b := by
+  simp [isNaN32] at hn
+  by_cases h255 : b / 8388608 % 256 = 255
+  · exact f32_roundtrip_special b hb (Or.inl ⟨h255, hn h255⟩)
+  · by_cases h0 : b / 8388608 % 256 = 0
+    · by_cases hm : b % 8388608 = 0
+      · exact f32_roundtrip_special b hb (Or.inr ⟨h0, hm⟩)
+      · exact f32_roundtrip_subnormal b hb h0 hm
+    · exact f32_roundtrip_normal b hb (by omega)
+
 /-! ### list helpers -/
 
 theorem pushL_length : ∀ vs, (pushL vs).length = vs.length
